@@ -146,6 +146,8 @@ class Program:
         self.methods_by_name: Dict[str, List[str]] = {}
         self.digest = ''
         self._load()
+        from .inline import inline_across_modules
+        self.inlined_calls = getattr(self, 'inlined_calls', 0) + inline_across_modules(self.modules, _abs_module, PKG)
         self._index()
 
     # ------------------------------------------------------------------ load
